@@ -2,7 +2,7 @@
 import importlib
 from . import common, gen_lean
 
-PROPS = ['c03', 'c04', 'c06', 'c08', 'c09', 'c10', 'c13', 'c14', 'c15', 'c19', 'c20']
+PROPS = ['c03', 'c04', 'c06', 'c08', 'c09', 'c10', 'c13', 'c14', 'c15', 'c17', 'c19', 'c20']
 
 
 def main():
